@@ -191,6 +191,9 @@ impl Profile {
             }
             "C10" | "C11" | "C12" => {
                 p.name = "journal";
+                p.p_multinode = 18;
+                p.w_stop_worker = 3;
+                p.max_workers = 6;
                 p.w_crash = 0;
                 p.w_open = 4;
                 p.w_close = 3;
